@@ -46,7 +46,8 @@ class P:
     rule = ("fault enumeration, one fresh process per case: random programs over logging handlers of every kind (context function by "
             "call and by bare name, global function, prefix / infix / postfix operator); for each program with m handler invocations and "
             "each k < m, the k-th invocation returns Err or panics; the faulted evaluation is followed by a battery on the same context "
-            "(dump, a new evaluation reading and assigning), on another context, and on another thread. Oracle: Err -> ERR, panic -> an "
+            "(dump, a new evaluation reading and assigning), on another context, on another thread, every registry, and the most deeply nested "
+            "programs the parser accepts on the faulted thread; plus 300 contained faults on one long-lived thread followed by a plain evaluation. Oracle: Err -> ERR, panic -> an "
             "unwind caught by the caller, exactly k+1 log entries, no lock poisoned, the context equals the reference semantics cut at "
             "that point, follow-ups return their normal results. Non-trivial = distinct (program, k, fault kind).")
     assumptions = ["a panic is observed with catch_unwind on the calling thread"]
@@ -84,7 +85,19 @@ class P:
                     lst = [sc[min(i, len(sc) - 1)] for i in range(idx)] + [(fault,)]
                     h2 = dict(handlers); h2[hid] = ("count", lst)
                     items.append(self.mk(stmts, ctx, h2, PT, (fault, k)))
-        return flow.mk_cases("fault", items)
+        cases = flow.mk_cases("fault", items)
+        # many contained faults on ONE long-lived thread (whatever a fault leaks per thread accumulates), then a plain evaluation
+        many = []
+        for fault, prog in (("fail", "g0(1)"), ("panic", "g0(1)"), ("panic", "[[f0]]"), ("panic", "1 <> 2"), ("fail", "!! 1"), ("panic", "{1 : [v +++]}")):
+            sc = {"fail": "e", "panic": "p"}[fault]
+            ops = ["H:%d:%s" % (h, sc) for h in (10, 20, 22, 23, 24)]
+            ops += ["REGF:%s:20" % hx("g0"), "REGP:%s:22" % hx("!!"), "REGI:%s:%x:0:0:23" % (hx("<>"), 105), "REGS:%s:24" % hx("+++"),
+                    "CF:1:%s:10" % hx("f0"), "CV:1:%s:n(0,4,0)" % hx("v")]
+            nset = len(ops)
+            ops += ["@w/EXEC:1:" + hx(prog)] * 300 + ["@w/EXEC:1:" + hx("1 + 1")]
+            many.append((" ".join(ops), ([], {}, {}, (fault, 300), prog, nset)))
+        cases += flow.mk_cases("many", many)
+        return cases
 
     def mk(self, stmts, ctx, handlers, PT, tag):
         src = "; ".join(progs.render_min(s, PT) for s in stmts)
@@ -98,7 +111,10 @@ class P:
         # function: look-ups of built-ins and a fresh registration after the fault), none of whose locks may be left poisoned
         ops += ["EXEC:1:" + hx(src), "CD:1", "EXEC:1:" + hx("q = 2; q + 1"), "EXEC:2:" + hx("7 * 6"), "@other/EXEC:1:" + hx("q"),
                 "EXEC:2:" + hx("sum(1, 2) - - 1 ++"), "H:77:rn(0,b,0)", "REGF:%s:77" % hx("zzf"), "REGP:%s:77" % hx("zzp"), "REGS:%s:77" % hx("zzs"),
-                "REGI:%s:6e:0:0:77" % hx("zzi"), "@other/EXEC:2:" + hx("zzf() + (zzp 1) + (1 zzs) + (1 zzi 2) + max(1, 2)")]
+                "REGI:%s:6e:0:0:77" % hx("zzi"), "@other/EXEC:2:" + hx("zzf() + (zzp 1) + (1 zzs) + (1 zzi 2) + max(1, 2)"),
+                # the faulted program once more on a persistent thread, then, on that thread, the most deeply nested programs the
+                # parser accepts: they still evaluate (plain EXEC ops run on a fresh thread each)
+                "@same/EXEC:1:" + hx(src), "@same/EXEC:2:" + hx("- " * 255 + "1"), "@same/EXEC:2:" + hx("[" * 255 + "2" + "]" * 255)]
         return (" ".join(ops), (stmts, ctx, handlers, tag, src, nset))
 
     def show(self, case):
@@ -133,11 +149,20 @@ class P:
     def oracle(self, case, impl):
         stmts, ctx, handlers, tag, src, nset = case.meta
         outs = impl.split(" ")
-        if len(outs) < nset + 12: return "violates", "battery incomplete: " + " ".join(o[:10] for o in outs[nset:])
+        if case.gen == "many":
+            # a long-lived thread: after 300 contained faults it still evaluates
+            last = values.split_exec(outs[-1])
+            if last["cls"] != "OK" or last["value"] != "n(0,2,0)":
+                return "violates", "after %d contained %ss on one thread, `1 + 1` on that thread returned %s" % (tag[1], tag[0], outs[-1][:50])
+            return "ok", ""
+        if len(outs) < nset + 15: return "violates", "battery incomplete: " + " ".join(o[:10] for o in outs[nset:])
         main, dump, f1, f2, f3 = outs[nset:nset + 5]
         f4, f5 = outs[nset + 5], outs[nset + 11]
-        if any(o.startswith(("PANIC", "DEADLOCK", "ABORT")) for o in outs[nset + 5:nset + 12]):
-            return "violates", "after the %s a registry is unusable: %s" % (tag[0], " ".join(o[:12] for o in outs[nset + 5:nset + 12]))
+        if any(o.startswith(("PANIC", "DEADLOCK", "ABORT")) for o in outs[nset + 5:nset + 12] + outs[nset + 13:nset + 15]):
+            return "violates", "after the %s a registry is unusable: %s" % (tag[0], " ".join(o[:12] for o in outs[nset + 5:nset + 15]))
+        d13, d14 = values.split_exec(outs[nset + 13]), values.split_exec(outs[nset + 14])
+        if d13["cls"] != "OK" or d13["value"] != "n(1,1,0)" or d14["cls"] != "OK" or not d14["value"].startswith("l(l(l("):
+            return "violates", "after the %s, the deepest accepted programs no longer evaluate on that thread: %s %s" % (tag[0], outs[nset + 13][:40], outs[nset + 14][:40])
         cls, val, fctx, log = run2(stmts, ctx, handlers)
         if cls == "SKIP":
             self.skipped += 1; return "ok", ""
